@@ -563,6 +563,9 @@ def gen_eds_world(rng, stats=None, force=None):
                 d_["yes"] = d_.get("yes", 0) + 1
         est = K.eds_status(active="foo-a", desired=rng.choice([n, n, 0, n + len(cn)]), current=n, ready=n, available=n, uptodate=n,
                            state=rng.choice(["Running", "Canary", "Canary Paused"]), canary=can,
+                           # the status left by an earlier reconcile may name a pause reason (a canary that was paused and is
+                           # failed or resumed now); derived from values already drawn, so that the random stream stays as it was
+                           reason=["", "ImagePullBackOff", "", "CrashLoopBackOff"][(created + n) % 4],
                            conditions=rng.choice([None, None, [K.cond("Canary-Paused", "True", trans=-50, reason="ImagePullBackOff")],
                                                   [K.cond("Canary-Failed", "False", trans=-50), K.cond("Canary-Paused", "False", trans=-50)]]))
     elif scenario == "active_missing":
